@@ -47,23 +47,8 @@ pub fn run_native(name: &str, vals: Vec<Vec<u8>>) -> NativeResult {
     }
 }
 
-/// After the solver reported a failed obligation: generate inputs natively (small id alphabet)
-/// until one fails one of the named obligations; returns its draws.
+/// After the solver reported a failed obligation: materialise a failing input natively.
 pub fn search_native(name: &str, seed: u64, budget: u64, wanted: &[String]) -> Option<(Vec<Vec<u8>>, Vec<String>)> {
     let f = lookup(name)?;
-    for i in 0..budget {
-        native::reset();
-        crate::model::reset_globals();
-        let mut pool = Pool::searching(seed.wrapping_mul(0x9E3779B97F4A7C15).wrapping_add(i.wrapping_mul(0xD1B54A32D192ED03)));
-        let r = std::panic::catch_unwind(std::panic::AssertUnwindSafe(|| f(&mut pool)));
-        let assume_failed = native::ASSUME_FAILED.with(|x| *x.borrow());
-        if assume_failed || r.is_err() {
-            continue;
-        }
-        let fails: Vec<String> = native::FAILS.with(|x| x.borrow().iter().map(|s| s.to_string()).collect());
-        if fails.iter().any(|s| wanted.iter().any(|w| w == s)) {
-            return Some((pool.trace.clone(), fails));
-        }
-    }
-    None
+    native::search(f, seed, budget, wanted, crate::model::reset_globals)
 }
